@@ -1,6 +1,7 @@
 import Props.C02
 import Props.C13
 import Proofs.JoinConv
+import Proofs.Converge
 /-!
 # C03 — Gossip converges
 
@@ -339,5 +340,214 @@ theorem C03_join_exact {ops : List Op} (h : AllowedRev ops) {r a : String} {sr s
   have hobs : Observes (runRev (.join r a true now :: ops)) r a V (own sa) :=
     ⟨fun e => hne e.symm, ⟨sr', h1, h2⟩, ⟨_, hfa, by rw [ho2, ho1]⟩⟩
   exact C02_caught_up_exact hall hobs h3 k
+
+/-! ## Network-level convergence: the closure over the whole network and a whole schedule
+
+`Quiet op` (`Proofs/Converge.lean`): the operation is not a local write (`upsert`, `delete`,
+`leave`, `compact`; `expire` is excluded by `StepAllowed` anyway).  `Op.writer op` is the node whose
+own state a local write changes (`none` for quiet operations).  Everything below is over the same
+quantifier as C02: any allowed history, then any allowed continuation (digests, deliveries of any
+pooled packet at any truncation, stream joins/leaves with or without reply, liveness rounds, new
+nodes) - **the schedule is a hypothesis** (which joins happen), fairness of the random peer choice
+is not modelled. -/
+
+/-- **A caught-up view stays caught up** over every allowed step that is not a local write of the
+owner `a` itself (quiet steps, and local writes of every other node, the observer included): the
+owner's own state `O` is untouched, the observer still remembers `a`, and its version of `a` is
+still the owner's. -/
+theorem C03_caught_up_stable {ops : List Op} (h : AllowedRev ops) {r a : String} {V O : NodeSt}
+    (ho : Observes (runRev ops) r a V O) (heq : V.version = O.version)
+    (op : Op) (hop : StepAllowed (runRev ops) op) (hq : op.writer ≠ some a) :
+    ∃ V', Observes (runRev (op :: ops)) r a V' O ∧ V'.version = O.version := by
+  have hinv := netInv_runRev ops h
+  obtain ⟨sr, hsr, hV⟩ := ho.obs
+  obtain ⟨sa, hsa, hO⟩ := ho.own
+  obtain ⟨sr', hsr', hk, _⟩ := step_keeps hinv op hop hsr
+  obtain ⟨sa', hsa', _, hown⟩ := step_keeps hinv op hop hsa
+  obtain ⟨V', hV', hle⟩ := hk.mono a V hV
+  have hobs : Observes (runRev (op :: ops)) r a V' O :=
+    ⟨ho.ne, ⟨sr', hsr', hV'⟩, ⟨sa', hsa', by rw [hown hq]; exact hO⟩⟩
+  refine ⟨V', hobs, ?_⟩
+  have := (C02_version_bounds (ops := op :: ops) ⟨h, hop⟩ hobs).1
+  omega
+
+/-- ... in particular over every quiet step. -/
+theorem C03_caught_up_stable_quiet {ops : List Op} (h : AllowedRev ops) {r a : String} {V O : NodeSt}
+    (ho : Observes (runRev ops) r a V O) (heq : V.version = O.version)
+    (op : Op) (hop : StepAllowed (runRev ops) op) (hq : Quiet op) :
+    ∃ V', Observes (runRev (op :: ops)) r a V' O ∧ V'.version = O.version :=
+  C03_caught_up_stable h ho heq op hop (hq.writer_ne a)
+
+/-- ... and over a whole allowed continuation `sched` without a local write of the owner: the view
+is then again exactly the owner's state. -/
+theorem C03_caught_up_stable_run : ∀ (sched : List Op) {ops : List Op} {r a : String} {V O : NodeSt},
+    AllowedRev (sched ++ ops) → (∀ op ∈ sched, op.writer ≠ some a) →
+    Observes (runRev ops) r a V O → V.version = O.version →
+    ∃ V', Observes (runRev (sched ++ ops)) r a V' O ∧ V'.version = O.version ∧
+      ∀ k, V'.entries.find k = O.entries.find k
+  | [], _, _, _, V, _, hall, _, ho, heq => ⟨V, ho, heq, C02_caught_up_exact hall ho heq⟩
+  | op :: sched, _, _, _, _, _, hall, hq, ho, heq => by
+    obtain ⟨V1, ho1, heq1, _⟩ := C03_caught_up_stable_run sched hall.1
+      (fun o hm => hq o (List.mem_cons_of_mem _ hm)) ho heq
+    obtain ⟨V2, ho2, heq2⟩ := C03_caught_up_stable hall.1 ho1 heq1 op hall.2 (hq op (List.mem_cons_self ..))
+    exact ⟨V2, ho2, heq2, C02_caught_up_exact (ops := op :: (sched ++ _)) hall ho2 heq2⟩
+
+/-- the induction behind `C03_converges`: once the schedule has contained the exchange
+`join r a` (reply delivered), `r` observes `a` at `a`'s version, and `a`'s own state is the one it
+had when the local writes of `a` stopped -/
+theorem C03_converges_version : ∀ (sched : List Op) {ops : List Op} {r a : String} {sr sa : CState},
+    AllowedRev (sched ++ ops) → (∀ op ∈ sched, op.writer ≠ some a) →
+    (runRev ops).net.nodes.find r = some sr → (runRev ops).net.nodes.find a = some sa → r ≠ a →
+    (own sa).entries ≠ [] → (∃ now, Op.join r a true now ∈ sched) →
+    ∃ V, Observes (runRev (sched ++ ops)) r a V (own sa) ∧ V.version = (own sa).version
+  | [], _, _, _, _, _, _, _, _, _, _, _, hj => by obtain ⟨_, hj⟩ := hj; cases hj
+  | op :: sched, ops, r, a, sr, sa, hall, hq, hr, ha, hne, hent, hj => by
+    obtain ⟨now, hj⟩ := hj
+    have hq' : ∀ o ∈ sched, o.writer ≠ some a := fun o hm => hq o (List.mem_cons_of_mem _ hm)
+    rcases List.mem_cons.mp hj with hop | hmem
+    · -- this step is the exchange
+      subst hop
+      obtain ⟨sr1, hr1, _, _⟩ := run_keeps sched ops hall.1 hr
+      obtain ⟨sa1, ha1, _, hown1⟩ := run_keeps sched ops hall.1 ha
+      have hown1 := hown1 hq'
+      obtain ⟨sr', V, h1, h2, h3⟩ := C03_join_catches_up hall.1 hr1 ha1 hne (by rw [hown1]; exact hent) now
+      obtain ⟨sa', hsa', _, hown'⟩ := step_keeps (netInv_runRev _ hall.1) (.join r a true now) hall.2 ha1
+      have hown' := hown' (by simp [Op.writer])
+      exact ⟨V, ⟨fun e => hne e.symm, ⟨sr', h1, h2⟩, ⟨sa', hsa', by rw [hown', hown1]⟩⟩, by rw [h3, hown1]⟩
+    · -- the exchange happened earlier; the view stays caught up
+      obtain ⟨V1, ho1, heq1⟩ := C03_converges_version sched hall.1 hq' hr ha hne hent ⟨now, hmem⟩
+      exact C03_caught_up_stable hall.1 ho1 heq1 op hall.2 (hq op (List.mem_cons_self ..))
+
+/-- **Convergence of one ordered pair, owner quiet.**  `ops` is any allowed history, `sched` any
+allowed continuation (latest first; the full history is `sched ++ ops`) that contains no local write
+of `a` - other nodes, the observer included, may keep writing - and somewhere the full stream
+exchange `join r a` with the reply delivered.  Then at the end `r`'s view of `a` is exactly `a`'s own
+state (which is still the one `a` had after `ops`): same version, and key by key the same entry -
+value, deletion marker, version - or the same absence. -/
+theorem C03_converges_owner_quiet {ops sched : List Op} (hall : AllowedRev (sched ++ ops))
+    {r a : String} {sr sa : CState} (hq : ∀ op ∈ sched, op.writer ≠ some a)
+    (hr : (runRev ops).net.nodes.find r = some sr) (ha : (runRev ops).net.nodes.find a = some sa)
+    (hne : r ≠ a) (hent : (own sa).entries ≠ []) {now : Nat} (hj : Op.join r a true now ∈ sched) :
+    ∃ sr' sa' V, (runRev (sched ++ ops)).net.nodes.find r = some sr' ∧
+      (runRev (sched ++ ops)).net.nodes.find a = some sa' ∧ own sa' = own sa ∧
+      sr'.nodes.find a = some V ∧ V.version = (own sa).version ∧
+      ∀ k, V.entries.find k = (own sa).entries.find k := by
+  obtain ⟨V, hobs, heq⟩ := C03_converges_version sched hall hq hr ha hne hent ⟨now, hj⟩
+  obtain ⟨sr', h1, h2⟩ := hobs.obs
+  obtain ⟨sa', h3, h4⟩ := hobs.own
+  exact ⟨sr', sa', V, h1, h3, h4, h2, heq, C02_caught_up_exact hall hobs heq⟩
+
+/-- **Convergence of one ordered pair** after the local updates stopped: every operation of the
+continuation `sched` is quiet (no `upsert/delete/leave/compact` anywhere), and `sched` contains
+`join r a` with the reply delivered. -/
+theorem C03_converges {ops sched : List Op} (hall : AllowedRev (sched ++ ops))
+    (hq : ∀ op ∈ sched, Quiet op) {r a : String} {sr sa : CState}
+    (hr : (runRev ops).net.nodes.find r = some sr) (ha : (runRev ops).net.nodes.find a = some sa)
+    (hne : r ≠ a) (hent : (own sa).entries ≠ []) {now : Nat} (hj : Op.join r a true now ∈ sched) :
+    ∃ sr' sa' V, (runRev (sched ++ ops)).net.nodes.find r = some sr' ∧
+      (runRev (sched ++ ops)).net.nodes.find a = some sa' ∧ own sa' = own sa ∧
+      sr'.nodes.find a = some V ∧ V.version = (own sa).version ∧
+      ∀ k, V.entries.find k = (own sa).entries.find k :=
+  C03_converges_owner_quiet hall (fun op hm => (hq op hm).writer_ne a) hr ha hne hent hj
+
+/-- **The whole network converges.**  After the local updates stopped (`sched` is quiet), if the
+schedule contains a full exchange for every ordered pair of distinct nodes that existed when the
+updates stopped (and whose owner holds at least one entry), then at the end - simultaneously, in the
+one final state `runRev (sched ++ ops)` - every such node's view of every other such node is exactly
+that node's own state, and every own state is the one it was when the updates stopped.  Nodes
+created by `node` operations inside `sched` are not quantified over. -/
+theorem C03_converges_all {ops sched : List Op} (hall : AllowedRev (sched ++ ops))
+    (hq : ∀ op ∈ sched, Quiet op)
+    (hsched : ∀ r a sr sa, r ≠ a → (runRev ops).net.nodes.find r = some sr →
+      (runRev ops).net.nodes.find a = some sa → (own sa).entries ≠ [] →
+      ∃ now, Op.join r a true now ∈ sched) :
+    ∀ r a sr sa, r ≠ a → (runRev ops).net.nodes.find r = some sr →
+      (runRev ops).net.nodes.find a = some sa → (own sa).entries ≠ [] →
+      ∃ sr' sa' V, (runRev (sched ++ ops)).net.nodes.find r = some sr' ∧
+        (runRev (sched ++ ops)).net.nodes.find a = some sa' ∧ own sa' = own sa ∧
+        sr'.nodes.find a = some V ∧ V.version = (own sa).version ∧
+        ∀ k, V.entries.find k = (own sa).entries.find k := by
+  intro r a sr sa hne hr ha hent
+  obtain ⟨now, hj⟩ := hsched r a sr sa hne hr ha hent
+  exact C03_converges hall hq hr ha hne hent hj
+
+/-! ### non-vacuity: three nodes, writes, a delete and a compaction, then six joins
+
+`c03Hist` (latest first): `n0` writes `k` and `j`, `n1` and `n2` write one key each, `n0` deletes
+`k` and compacts (threshold 1): its own state is then the marker at version 5 and `j` re-versioned
+4.  `c03Sched`: one full exchange for each of the six ordered pairs, nothing else. -/
+
+def c03Hist : List Op :=
+  [Op.compact "n0" 1, Op.delete "n0" "k", Op.upsert "n2" "y" "2", Op.upsert "n1" "x" "1",
+   Op.upsert "n0" "j" "w", Op.upsert "n0" "k" "v",
+   Op.node "n2" "a2", Op.node "n1" "a1", Op.node "n0" "a0"]
+def c03Sched : List Op :=
+  [Op.join "n2" "n1" true 6, Op.join "n2" "n0" true 5, Op.join "n1" "n2" true 4,
+   Op.join "n1" "n0" true 3, Op.join "n0" "n2" true 2, Op.join "n0" "n1" true 1]
+
+def c03N0 : NodeSt :=
+  { id := "n0", addr := "a0", version := 5, entries :=
+      [(compactKey, { key := compactKey, value := "3", version := 5, internal := true }),
+       ("j", { key := "j", value := "w", version := 4 })] }
+def c03N1 : NodeSt :=
+  { id := "n1", addr := "a1", version := 1, entries := [("x", { key := "x", value := "1", version := 1 })] }
+def c03N2 : NodeSt :=
+  { id := "n2", addr := "a2", version := 1, entries := [("y", { key := "y", value := "2", version := 1 })] }
+
+theorem c03Sched_quiet : ∀ op ∈ c03Sched, Quiet op := by decide
+
+set_option maxRecDepth 8000 in
+theorem c03Hist_nodes : (runRev c03Hist).net.nodes =
+    [("n0", { localId := "n0", nodes := [("n0", c03N0)] }),
+     ("n2", { localId := "n2", nodes := [("n2", c03N2)] }),
+     ("n1", { localId := "n1", nodes := [("n1", c03N1)] })] := by
+  simp [c03Hist, c03N0, c03N1, c03N2, runRev, GNet.step, Net.step, Net.setNode, Net.nodeByAddr, localOp, init, own,
+    upsertLocal, deleteLocal, compactLocal, writeOwn, setOwn, sortByVersion, List.mergeSort,
+    List.MergeSort.Internal.splitInTwo, compactKeeps, reversion, AMap.find, AMap.insert, AMap.erase, AMap.vals,
+    compactKey]
+  decide
+
+set_option maxRecDepth 8000 in
+theorem c03Allowed : AllowedRev (c03Sched ++ c03Hist) := by
+  simp [c03Sched, c03Hist, AllowedRev, StepAllowed, leftKey, compactKey, runRev, GNet.step, Net.step, Net.setNode,
+    Net.nodeByAddr, localOp, init, own, upsertLocal, deleteLocal, writeOwn, setOwn, AMap.find, AMap.insert, AMap.erase]
+
+theorem c03Sched_complete : ∀ r a sr sa, r ≠ a → (runRev c03Hist).net.nodes.find r = some sr →
+    (runRev c03Hist).net.nodes.find a = some sa → (own sa).entries ≠ [] →
+    ∃ now, Op.join r a true now ∈ c03Sched := by
+  intro r a sr sa hne hr ha _
+  rw [c03Hist_nodes] at hr ha
+  have hr' : r = "n0" ∨ r = "n2" ∨ r = "n1" := by
+    simp only [AMap.find_cons, AMap.find_nil] at hr
+    by_cases h0 : "n0" = r; · exact Or.inl h0.symm
+    by_cases h2 : "n2" = r; · exact Or.inr (Or.inl h2.symm)
+    by_cases h1 : "n1" = r; · exact Or.inr (Or.inr h1.symm)
+    simp [h0, h1, h2] at hr
+  have ha' : a = "n0" ∨ a = "n2" ∨ a = "n1" := by
+    simp only [AMap.find_cons, AMap.find_nil] at ha
+    by_cases h0 : "n0" = a; · exact Or.inl h0.symm
+    by_cases h2 : "n2" = a; · exact Or.inr (Or.inl h2.symm)
+    by_cases h1 : "n1" = a; · exact Or.inr (Or.inr h1.symm)
+    simp [h0, h1, h2] at ha
+  rcases hr' with rfl | rfl | rfl <;> rcases ha' with rfl | rfl | rfl <;>
+    first
+    | exact absurd rfl hne
+    | exact ⟨_, by simp [c03Sched]; rfl⟩
+
+/-- the concrete conclusion, obtained from `C03_converges_all`: at the end `n2` (which never talked to
+`n0` before the updates stopped) sees `n0` at version 5, without the compacted key `k`, with `j` as
+re-versioned by the compaction -/
+example : ∃ sr V, (runRev (c03Sched ++ c03Hist)).net.nodes.find "n2" = some sr ∧
+    sr.nodes.find "n0" = some V ∧ V.version = 5 ∧ V.entries.find "k" = none ∧
+    V.entries.find "j" = some { key := "j", value := "w", version := 4 } := by
+  obtain ⟨sr', _, V, h1, _, _, h2, h3, h4⟩ :=
+    C03_converges_all c03Allowed c03Sched_quiet c03Sched_complete "n2" "n0"
+      { localId := "n2", nodes := [("n2", c03N2)] } { localId := "n0", nodes := [("n0", c03N0)] }
+      (by decide) (by rw [c03Hist_nodes]; simp [AMap.find]) (by rw [c03Hist_nodes]; simp [AMap.find])
+      (by simp [own, c03N0, AMap.find])
+  refine ⟨sr', V, h1, h2, ?_, ?_, ?_⟩
+  · rw [h3]; simp [own, c03N0, AMap.find]
+  · rw [h4]; simp [own, c03N0, AMap.find, compactKey]
+  · rw [h4]; simp [own, c03N0, AMap.find, compactKey]
 
 end Piko
